@@ -23,6 +23,20 @@ class ReaderRunner:
         model, spec = run.run_model(cases)
         return impl, model, spec
 
+    def judge(self, cases):
+        """re-decide stored cases (replay): oracle and exact comparison as in a run"""
+        res = engine.Result('replay')
+        engine.EXACT_KINDS = getattr(self, 'exact_kinds', None)
+        try:
+            engine._run_cases(res, self._replay_family(cases), cases, self.raw_oracle, self.keep_growth, self.exact,
+                              getattr(self, '_post', None))
+        finally:
+            engine.EXACT_KINDS = None
+        return res
+
+    def _replay_family(self, cases):
+        return 'replay'
+
     def _oracle_fails(self, lines, key):
         impl = run.run_impl(lines, timeout=120)
         if impl is None:
@@ -371,6 +385,9 @@ class GroupRunner(ReaderRunner):
             elif any(t.startswith('R:') or t.startswith('E:') for t in group[0][1]):
                 nt += 1
         return nt
+
+    def _replay_family(self, cases):
+        return 'replay_cfg' if len(cases) == self.group_size else 'replay'
 
     def run(self, res, tier, seed, corpus):
         engine.run_reader_families(res, self.fams[tier], seed, self.raw_oracle, self.keep_growth, self.exact, corpus, post=self._post)
